@@ -22,7 +22,7 @@ from .world import FAMILY, LINK_CLASSES, Watchdog, World
 
 KNOWN_OPEN = set()
 BOOKKEEPING = ("_NodeMixin__parent", "_NodeMixin__children", "_LightNodeMixin__parent", "_LightNodeMixin__children")
-SLOT_ATTRS = ("name", "foo", "bar")
+SLOT_ATTRS = ("name", "foo", "bar", "extra")
 
 MENUS = (
     ("HNode",),
@@ -35,6 +35,10 @@ MENUS = (
     ("HLight",),
     ("HLightDict",),
     ("HLight", "HLightDict"),
+    ("HLight", "HLightSub"),
+    ("HLightSub",),
+    ("HNodeBag", "HNode"),
+    ("HNodeEq",),
 )
 
 
@@ -65,6 +69,12 @@ def gen_cfg(rng, prop, tier):
     lo = 2 if cfg["family"] == "light" else 0
     cfg["methods"] = ["pickle%d" % p for p in range(lo, pickle.HIGHEST_PROTOCOL + 1)] + ["deepcopy"]
     cfg["fresh"] = False
+    # some nodes carry an immutable container holding another node and a list: the copy must reach the
+    # copied node through it and must not share the list
+    cfg["refs"] = [
+        (rng.randrange(n) if (FAMILY[c] == "node" or c == "HLightDict") and c not in LINK_CLASSES and rng.random() < 0.15 else None)
+        for c in classes
+    ]
     return cfg
 
 
@@ -80,7 +90,7 @@ def attrs_of(obj):
     d = getattr(obj, "__dict__", None)
     if d is not None:
         for k, v in d.items():
-            if k not in BOOKKEEPING and k != "target":
+            if k not in BOOKKEEPING and k != "target" and k != "ref":
                 out[k] = v
     for k in SLOT_ATTRS:
         if k not in out:
@@ -91,7 +101,7 @@ def attrs_of(obj):
     return out
 
 
-def reach(model, targets, entry):
+def reach(model, targets, entry, refs=None):
     """Indices reachable from entry over parent/children/target edges, in a
     deterministic discovery order (parent, children in order, target)."""
     order = [entry]
@@ -106,6 +116,8 @@ def reach(model, targets, entry):
         nxt.extend(model.children[k])
         if targets[k] is not None:
             nxt.append(targets[k])
+        if refs is not None and k < len(refs) and refs[k] is not None:
+            nxt.append(refs[k])
         for x in nxt:
             if x not in seen:
                 seen.add(x)
@@ -113,10 +125,10 @@ def reach(model, targets, entry):
     return order
 
 
-def match_copy(step, op, world, model, targets, entry, copy_entry):
+def match_copy(step, op, world, model, targets, entry, copy_entry, refs=None):
     """Walk original (by model) and copy (by real attributes) simultaneously.
     Returns the list of copy objects in reach order, or raises Violation."""
-    order = reach(model, targets, entry)
+    order = reach(model, targets, entry, refs)
     obj_of = {entry: copy_entry}
     idx_of = {id(copy_entry): entry}
     limit = 4 * len(order) + 8
@@ -167,6 +179,15 @@ def match_copy(step, op, world, model, targets, entry, copy_entry):
             bind(k, kids[j], "child %d of %d" % (j, i))
         if targets[i] is not None:
             bind(targets[i], object.__getattribute__(c, "target"), "target of %d" % i)
+        if refs is not None and i < len(refs) and refs[i] is not None:
+            r0 = orig.__dict__["ref"]
+            r1 = c.__dict__.get("ref")
+            if type(r1) is not tuple or len(r1) != 2 or r1[1] != r0[1]:
+                raise Violation("C19", "attrs", step, "attrs:" + op["method"][:6], "step %d %s: node %d attribute ref is %r in the copy" % (step, op, i, type(r1).__name__))
+            if r1[1] is r0[1]:
+                raise Violation("C19", "shared", step, "shared-value:" + op["method"][:6],
+                                "step %d %s: the list inside node %d's tuple attribute is the same object in copy and original" % (step, op, i))
+            bind(refs[i], r1[0], "node referenced by the tuple attribute of %d" % i)
     return order, [obj_of[i] for i in order]
 
 
@@ -178,10 +199,10 @@ def take_snapshot(obj, method):
     return data, pickle.loads(data)
 
 
-def describe(model, targets, attrs, classes, entry):
+def describe(model, targets, attrs, classes, entry, refs=None):
     """Canonical description of the reachable closure, in reach order (used for
     the fresh-interpreter restore)."""
-    order = reach(model, targets, entry)
+    order = reach(model, targets, entry, refs)
     pos = {k: j for j, k in enumerate(order)}
     return [
         [
@@ -190,6 +211,7 @@ def describe(model, targets, attrs, classes, entry):
             None if model.parent[k] is None else pos[model.parent[k]],
             [pos[c] for c in model.children[k]],
             None if targets[k] is None else pos[targets[k]],
+            None if refs is None or k >= len(refs) or refs[k] is None else pos[refs[k]],
         ]
         for k in order
     ]
@@ -210,6 +232,9 @@ def describe_real(entry_obj, limit=200):
         t = getattr(c, "__dict__", {}).get("target")
         if t is not None:
             nxt.append(t)
+        rf = getattr(c, "__dict__", {}).get("ref")
+        if rf is not None:
+            nxt.append(rf[0])
         for x in nxt:
             if id(x) not in pos:
                 pos[id(x)] = len(order)
@@ -224,6 +249,7 @@ def describe_real(entry_obj, limit=200):
                 None if c.parent is None else pos[id(c.parent)],
                 [pos[id(k)] for k in c.children],
                 None if t is None else pos[id(t)],
+                None if getattr(c, "__dict__", {}).get("ref") is None else pos[id(c.__dict__["ref"][0])],
             ]
         )
     return out
@@ -312,6 +338,10 @@ def run(cfg, ops=None, rng=None):
     world, model = struct.build_world(cfg)
     targets = list(cfg["targets"])
     classes = list(cfg["classes"])
+    refs = list(cfg.get("refs") or [None] * len(classes))
+    for i, j in enumerate(refs):
+        if j is not None:
+            world.nodes[i].ref = (world.nodes[j], [i, j])
     h = hashlib.blake2b(digest_size=16)
     h.update(repr(sorted(cfg.items())).encode())
     replay = ops is not None
@@ -375,9 +405,9 @@ def run(cfg, ops=None, rng=None):
                 res.bump("snapshots")
                 res.bump("snap_" + op["method"])
                 res.bump("snap_lazy" if lazy else "snap_observed")
-                order, objs = match_copy(step, op, world, model, targets, entry, centry)
+                order, objs = match_copy(step, op, world, model, targets, entry, centry, refs)
                 if data is not None:
-                    desc = describe(model, targets, attrs, [type(n).__name__ for n in world.nodes], entry)
+                    desc = describe(model, targets, attrs, [type(n).__name__ for n in world.nodes], entry, refs)
                     if cfg.get("fresh"):
                         msg = fresh_check([(data, desc)])[0]
                         res.bump("fresh_process_restores")
@@ -440,6 +470,7 @@ def run(cfg, ops=None, rng=None):
                 if side == "A":
                     targets.append(op.get("target"))
                     classes.append(op["cls"])
+                    refs.append(None)
             excname = type(exc).__name__ if exc is not None else None
             h.update(repr((step, side, struct.op_brief(op), excname)).encode())
             res.sigs.add(stable_hash((side, struct.shape_sig(m, struct.op_marks(op)), struct.op_brief(op), excname)))
